@@ -404,8 +404,12 @@ def call_method(interp, obj, name, args, kwargs, lineno):
     from .interp import ASparse
     ctx = interp.ctx
     if isinstance(obj, ASparse):
-        if name == 'copy':
+        if name in ('copy', 'tocsr', 'tocoo', 'tocsc', 'asformat'):
+            # format conversions return a new matrix with the same entries (duplicates summed - the entry list is already
+            # read as a sum); copy likewise
             return ASparse(list(obj.entries), obj.shape, list(obj.issues))
+        if name == 'sum_duplicates':
+            return None
         raise AnalysisError(f"sparse method {name}")
     if isinstance(obj, Rat):
         if name == 'item':
